@@ -7,7 +7,8 @@
   faults: `pos:index:what`, pos ∈ cb (operator callback, Next position) | cbe | cbc | cbs |
   ss (source subscribe function, index = notifications emitted before the panic) | st (source
   teardown) | fn fe fc (final observer); what ∈ pe<n> (panic with user error n) | pv<n> (panic with
-  a non-error value) | er<n> (return user error n; MapErr only).
+  a non-error value) | pw<n> (panic with oe(ob(u<n>)): an error the library itself wrapped twice before) |
+  er<n> (return user error n; MapErr only).
 
   Other shapes of the same kind:
     op=Finalizers fs=ok,pe1,pv2      — subscriptionImpl.Unsubscribe over a finalizer list
@@ -24,6 +25,8 @@ def parseWhat (s : String) : Option Fault.Fault :=
   match s.toList with
   | 'p' :: 'e' :: r => (String.ofList r).toNat?.map (fun n => .panicErr (.user n))
   | 'p' :: 'v' :: r => (String.ofList r).toNat?.map (fun n => .panicVal n)
+  -- an error that already went through the library twice (`ro.Observable: ro.Observer: user-n`), handed back by user code
+  | 'p' :: 'w' :: r => (String.ofList r).toNat?.map (fun n => .panicErr (.observable (.observer (.user n))))
   | 'e' :: 'r' :: r => (String.ofList r).toNat?.map (fun n => .errRet (.user n))
   | _ => none
 
